@@ -1,3 +1,4 @@
+mod facade;
 mod gen;
 mod run;
 mod types;
@@ -6,7 +7,7 @@ use std::io::{self, BufWriter, Write};
 
 fn usage() -> ! {
     eprintln!(
-        "usage:\n  mmharness run < ops > trace\n  mmharness gen <unsync|sync> <seed> <ncases> <len> [profile|all] [blackbox]"
+        "usage:\n  mmharness run < ops > trace\n  mmharness gen <unsync|sync> <seed> <ncases> <len> [profile|all] [blackbox|whitebox] [any|none|large]"
     );
     std::process::exit(2)
 }
@@ -32,6 +33,8 @@ fn main() {
             let kind: &'static str = match args[2].as_str() {
                 "unsync" => "unsync",
                 "sync" => "sync",
+                "sketch" => "sketch",
+                "deque" => "deque",
                 _ => usage(),
             };
             let seed: u64 = args[3].parse().unwrap_or_else(|_| usage());
@@ -39,6 +42,7 @@ fn main() {
             let len: usize = args[5].parse().unwrap_or_else(|_| usage());
             let prof = args.get(6).map(|s| s.as_str()).unwrap_or("all");
             let white = args.get(7).map(|s| s.as_str()) != Some("blackbox");
+            let capmode = args.get(8).map(|s| s.as_str()).unwrap_or("any").to_string();
             for i in 0..ncases {
                 let p = if prof == "all" {
                     gen::PROFILES[(i % gen::PROFILES.len() as u64) as usize]
@@ -46,7 +50,18 @@ fn main() {
                     gen::Profile::parse(prof).unwrap_or_else(|| usage())
                 };
                 let case_seed = types::splitmix(seed.wrapping_mul(1_000_003).wrapping_add(i));
-                for l in gen::gen_case(case_seed, kind, p, len, white) {
+                if kind == "sketch" || kind == "deque" {
+                    let lines = if kind == "sketch" {
+                        facade::gen_sketch(case_seed, len)
+                    } else {
+                        facade::gen_deque(case_seed, len)
+                    };
+                    for l in lines {
+                        writeln!(out, "{}", l).unwrap();
+                    }
+                    continue;
+                }
+                for l in gen::gen_case(case_seed, kind, p, len, white, &capmode) {
                     writeln!(out, "{}", l).unwrap();
                 }
             }
